@@ -7,7 +7,7 @@ theorem fixChar_of_xmlChar {c : Char} (h : xmlChar c = true) : fixChar c = c := 
 /-- one escaped code point is read back as that code point (U+FFFD for a non-XML one),
 whatever the quote character -/
 theorem readValue_escChar (q : Char) (hq : q = '\'' ∨ q = '"') (c : Char) (acc cs : Str) :
-    readValue q (escChar c ++ cs) ⟨acc, none⟩ = readValue q cs ⟨acc ++ [fixChar c], none⟩ := by
+    readValue q (escChar c ++ cs) ⟨acc, none, false⟩ = readValue q cs ⟨acc ++ [fixChar c], none, false⟩ := by
   unfold escChar
   by_cases h1 : c = '"'
   · subst h1; rcases hq with rfl | rfl <;> simp [readValue, decodeEntity, numOf, decVal?, xmlChar, fixChar] <;> rfl
@@ -28,14 +28,14 @@ theorem readValue_escChar (q : Char) (hq : q = '\'' ∨ q = '"') (c : Char) (acc
   simp only [h1, h2, h3, h4, h5, h6, h7, h8, if_false]
   by_cases hx : xmlChar c = true
   · have hcq : c ≠ q := by rcases hq with rfl | rfl <;> assumption
-    simp [hx, readValue, hcq, h3, h4, fixChar]
+    simp [hx, readValue, hcq, h3, h4, h7, h8, fixChar]
   · have hx' : xmlChar c = false := by simpa using hx
     have hf : xmlChar '�' = true := by decide
     rcases hq with rfl | rfl <;> simp [hx', readValue, fixChar, hf]
 
 /-- a whole escaped value, up to the closing quote -/
 theorem readValue_escapeText (q : Char) (hq : q = '\'' ∨ q = '"') (v : Str) : ∀ (acc rest : Str),
-    readValue q (escapeText v ++ q :: rest) ⟨acc, none⟩ = some (acc ++ v.map fixChar, rest) := by
+    readValue q (escapeText v ++ q :: rest) ⟨acc, none, false⟩ = some (acc ++ v.map fixChar, rest) := by
   induction v with
   | nil => intro acc rest; simp [escapeText, readValue]
   | cons c v ih =>
@@ -43,6 +43,48 @@ theorem readValue_escapeText (q : Char) (hq : q = '\'' ∨ q = '"') (v : Str) : 
     have : escapeText (c :: v) = escChar c ++ escapeText v := by simp [escapeText]
     rw [this, List.append_assoc, readValue_escChar q hq, ih]
     simp
+
+/-- raw text inside an attribute value (no quote, `&` or `<`, XML characters only) is read
+with its line ends normalised -/
+theorem readValue_raw (q : Char) (v : Str)
+    (hv : ∀ c ∈ v, c ≠ q ∧ c ≠ '&' ∧ c ≠ '<' ∧ xmlChar c = true) : ∀ (prev : Bool) (acc rest : Str),
+    readValue q (v ++ q :: rest) ⟨acc, none, prev⟩ = some (acc ++ normCR prev v, rest) := by
+  induction v with
+  | nil => intro prev acc rest; simp [readValue, normCR]
+  | cons c v ih =>
+    intro prev acc rest
+    obtain ⟨h1, h2, h3, h4⟩ := hv c (by simp)
+    have ih' := ih (fun c' h' => hv c' (by simp [h']))
+    by_cases hr : c = '\r'
+    · subst hr
+      simp [readValue, normCR, h1, ih']
+    · by_cases hn : c = '\n' ∧ prev = true
+      · obtain ⟨rfl, rfl⟩ := hn
+        simp [readValue, normCR, h1, ih']
+      · simp only [List.cons_append, readValue, h1, h2, h3, hr, hn, h4, if_false, if_true, ih', normCR]
+        simp
+
+theorem normCR_no_cr (v : Str) : ∀ prev, '\r' ∉ normCR prev v := by
+  induction v with
+  | nil => intro prev; simp [normCR]
+  | cons c v ih =>
+    intro prev
+    unfold normCR
+    split
+    · simp [ih true]
+    · split
+      · exact ih false
+      · rename_i hr _
+        simp only [List.mem_cons, not_or]
+        exact ⟨fun h => hr h.symm, ih false⟩
+
+theorem normCR_id (v : Str) (h : '\r' ∉ v) : normCR false v = v := by
+  induction v with
+  | nil => rfl
+  | cons c v ih =>
+    have hc : c ≠ '\r' := fun e => h (by simp [e])
+    have hv : '\r' ∉ v := fun e => h (by simp [e])
+    simp [normCR, hc, ih hv]
 
 /-- a non-empty string of name characters -/
 def IsName (n : Str) : Prop := n ≠ [] ∧ ∀ c ∈ n, isNameChar c = true
